@@ -15,6 +15,7 @@ import (
 
 	"github.com/33cn/chain33/common/verifhook"
 	"github.com/33cn/chain33/queue"
+	"github.com/33cn/chain33/types"
 
 	"verifsim/simrt"
 )
@@ -103,6 +104,7 @@ func (busEngine) run(ctx *simrt.Ctx) *simrt.Violation {
 	sched := simrt.NewSched(ctx)
 	sched.Patience = 20 * time.Second
 	var active int32 = 1
+	var finalClose int32
 	oldYield := verifhook.Yield
 	verifhook.Yield = func(site string) {
 		if atomic.LoadInt32(&active) == 1 {
@@ -115,6 +117,21 @@ func (busEngine) run(ctx *simrt.Ctx) *simrt.Violation {
 	respClients := map[int64]queue.Client{}
 	var respMu sync.Mutex
 	var queueClosed int32
+	// closing[t] is set BEFORE the responder client of topic t starts closing, so
+	// a "closed" error seen while neither it nor queueClosed is set was produced
+	// for nothing this requester did
+	closing := map[int64]bool{}
+	closedErr := func(err error) bool {
+		return err == types.ErrChannelClosed || err == queue.ErrIsQueueClosed
+	}
+	spurious := func(name string, id int64, tp int64, what string, err error) {
+		respMu.Lock()
+		c := closing[tp%nTopics]
+		respMu.Unlock()
+		if closedErr(err) && !c && atomic.LoadInt32(&queueClosed) == 0 && atomic.LoadInt32(&finalClose) == 0 {
+			w.fail(ctx.Violate("wrong-reply", "closed-error-without-close", "%s request %d on %s: %s returned %v although neither that topic's client nor the queue had been closed", name, id, topic(tp), what, err))
+		}
+	}
 
 	for i := range sc.Ops {
 		op := sc.Ops[i]
@@ -202,6 +219,7 @@ func (busEngine) run(ctx *simrt.Ctx) *simrt.Violation {
 						err = c.SendTimeout(msg, true, tmo)
 					}
 					if err != nil {
+						spurious(name, id, tp, "Send", err)
 						continue // refused (closed / full / timeout): an error, not a block
 					}
 					a.Yield("wait")
@@ -217,6 +235,7 @@ func (busEngine) run(ctx *simrt.Ctx) *simrt.Violation {
 						}
 					}
 					if err != nil {
+						spurious(name, id, tp, "Wait", err)
 						continue
 					}
 					rp, isP := reply.GetData().(*payload)
@@ -256,6 +275,9 @@ func (busEngine) run(ctx *simrt.Ctx) *simrt.Violation {
 					respMu.Lock()
 					c := respClients[tp]
 					delete(respClients, tp)
+					if c != nil {
+						closing[tp] = true
+					}
 					respMu.Unlock()
 					if c != nil {
 						w.mu.Lock()
@@ -290,6 +312,7 @@ func (busEngine) run(ctx *simrt.Ctx) *simrt.Violation {
 		ctx.Probe("blocked_before_final_close")
 	}
 	closed := make(chan struct{})
+	atomic.StoreInt32(&finalClose, 1)
 	go func() {
 		q.Close()
 		close(closed)
